@@ -25,8 +25,9 @@ type c10Case struct {
 	Base      int64  `json:"base"`      // base time in 90 kHz ticks (may exceed 2^33 for MPEG-TS: wraps)
 	Tracks    string `json:"tracks"`    // v a va v+a v+aa v+aaa
 	BFrames   bool   `json:"bframes"`
-	Frags     int    `json:"frags"` // fragments per segment (fMP4)
-	Range     bool   `json:"range"` // byte-range addressing of one resource
+	Frags     int    `json:"frags"`                     // fragments per segment (fMP4)
+	Range     bool   `json:"range"`                     // byte-range addressing of one resource
+	Implicit  bool   `json:"implicit_offset,omitempty"` // byte ranges after the first one omit the offset (each starts where the previous one ended)
 	PDT       bool   `json:"pdt"`
 	VOD       bool   `json:"vod"`
 	AudioLead int    `json:"audio_lead_ms"` // >0: audio starts that much before the video (and is multiplexed first); <0: after
@@ -34,7 +35,7 @@ type c10Case struct {
 }
 
 func (c c10Case) String() string {
-	return fmt.Sprintf("%s base=%d tracks=%s bframes=%v frags=%d range=%v pdt=%v vod=%v audiolead=%dms nseg=%d", c.Container, c.Base, c.Tracks, c.BFrames, c.Frags, c.Range, c.PDT, c.VOD, c.AudioLead, c.NSeg)
+	return fmt.Sprintf("%s base=%d tracks=%s bframes=%v frags=%d range=%v%s pdt=%v vod=%v audiolead=%dms nseg=%d", c.Container, c.Base, c.Tracks, c.BFrames, c.Frags, c.Range, map[bool]string{true: "(implicit offsets)"}[c.Implicit], c.PDT, c.VOD, c.AudioLead, c.NSeg)
 }
 
 var c10T0 = time.Date(2022, 3, 4, 5, 6, 7, 250_000_000, time.FixedZone("", -3*3600))
@@ -235,6 +236,9 @@ func (st *c10Stream) playlist(ri int) string {
 		if cs.Range {
 			ps.URI = fmt.Sprintf("r%d_all", ri)
 			ps.ByteRange = fmt.Sprintf("%d@%d", len(s.Body), r.offs[j])
+			if cs.Implicit && j > 0 {
+				ps.ByteRange = fmt.Sprintf("%d", len(s.Body))
+			}
 		}
 		segs = append(segs, ps)
 	}
@@ -503,7 +507,8 @@ func c10Cases(tier string) map[string][]c10Case {
 						if cont == "ts" && frags != 1 {
 							continue
 						}
-						for _, rng := range []bool{false, true} {
+						for _, rngMode := range []int{0, 1, 2} {
+							rng := rngMode != 0
 							for _, pdt := range []bool{false, true} {
 								for _, vod := range []bool{false, true} {
 									for _, lead := range []int{0, 100, -100} {
@@ -513,7 +518,7 @@ func c10Cases(tier string) map[string][]c10Case {
 										if tier != "thorough" && rng && bf && lead != 0 {
 											continue
 										}
-										out[key] = append(out[key], c10Case{Container: cont, Base: base, Tracks: tracks, BFrames: bf, Frags: frags, Range: rng, PDT: pdt, VOD: vod, AudioLead: lead, NSeg: 4})
+										out[key] = append(out[key], c10Case{Container: cont, Base: base, Tracks: tracks, BFrames: bf, Frags: frags, Range: rng, Implicit: rngMode == 2, PDT: pdt, VOD: vod, AudioLead: lead, NSeg: 4})
 									}
 								}
 							}
